@@ -231,6 +231,10 @@ func runC17(c *Ctx) {
 			if u, ok := v.(*ssa.UnOp); ok && u.Op == token.MUL && flow.IsFieldLoad(v, gcePkg, "SevPolicyOptions", "Overwrite") {
 				return 0, true
 			}
+			// the conflict check compares the base measurement only for a named VMSA count
+			if u, ok := v.(*ssa.UnOp); ok && u.Op == token.MUL && flow.IsFieldLoad(v, gcePkg, "SevPolicyOptions", "LaunchVmsas") {
+				return 1, true
+			}
 			return 0, false
 		}
 		r.Match = func(in ssa.Instruction) []esp.Ev {
@@ -262,6 +266,9 @@ func runC17(c *Ctx) {
 			case evStore:
 				if ph == esp.AtCall && s.Flag(0) != esp.NonZero && !s.Has(bGate) {
 					return s, "R3: " + ev.Name + " overwritten where Overwrite is not known true and the conflict check has not succeeded"
+				}
+				if ph == esp.AtCall && s.Flag(0) != esp.NonZero && strings.HasSuffix(ev.Name, "Measurement") && s.Flag(1) != esp.NonZero {
+					return s, "R3: " + ev.Name + " written where no VMSA count is known to be named: the conflict check compares the base measurement only for a named count, so on this path a measurement already set in the base policy is replaced unchecked"
 				}
 			case evSvnLow:
 				if ph == esp.Ok {
